@@ -351,6 +351,52 @@ class Module:
         return out
 
 
+    # -- slicing ---------------------------------------------------------------
+    _STRIP_WORDS = {"internal", "private", "hidden", "protected", "dso_local", "linkonce_odr",
+                    "weak_odr", "weak", "linkonce", "available_externally", "dso_preemptable",
+                    "common", "appending"}
+
+    def slice_text(self, keep):
+        """Module text in which every function outside `keep` (a set of
+        symbol names) is reduced to a declaration.  Used to run LLVM analysis
+        printers only on the functions of interest."""
+        out = []
+        lines = self.lines
+        i = 0
+        n = len(lines)
+        starts = {f.start: f for f in self.funcs.values() if not f.is_decl}
+        while i < n:
+            f = starts.get(i)
+            if f is None:
+                ln = lines[i]
+                if ln.startswith("@"):
+                    m = RE_ALIAS.match(ln)
+                    if m and unq(m.group(2)) not in keep:
+                        # alias of a removed definition -> declaration of the same type
+                        mm = re.search(r'\balias\s+(.*?)\s*\((.*)\),\s*ptr\s+@', ln)
+                        if mm:
+                            out.append("declare %s @%s(%s)" % (mm.group(1), m.group(1), mm.group(2)))
+                        i += 1
+                        continue
+                out.append(ln)
+                i += 1
+                continue
+            if f.name in keep:
+                out.extend(lines[f.start:f.end + 1])
+            else:
+                ln = lines[f.start]
+                m = RE_DEFINE.match(ln)
+                end = self._sig_end(ln, m.end() - 1)
+                head = ln[:end]
+                tail = ln[end:]
+                words = head[len("define"):].split(" ")
+                words = [w for w in words if w not in self._STRIP_WORDS]
+                groups = " ".join("#" + g for g in RE_ATTRREF.findall(tail.split("!dbg")[0].split(" personality ")[0]))
+                out.append("declare" + " ".join(words) + " " + groups)
+            i = f.end + 1
+        return "\n".join(out)
+
+
 # ---------------------------------------------------------------------------
 
 _DEM_ESC = {"LT": "<", "GT": ">", "RF": "&", "LP": "(", "RP": ")", "C": ",", "BP": "*", "SP": "@"}
